@@ -34,6 +34,9 @@ def gen_cases(tier, seed):
             c["a"] = dict(c["a"], vclass="huge")           # saturating magnitudes (|x| up to 800), both dtypes
         if c["op"] in ("sigmoid", "tanh") and c["n"] % 3 == 2:
             c["a"] = dict(c["a"], vclass="tails")          # 16 <= |x| <= 80: tiny results far from underflow
+        if c["op"] in ("bce_loss", "bce_with_logits", "mse_loss") and c["n"] % 4 == 2:
+            # hard 0/1 labels as they come out of a data pipeline: masks and label arrays of small integer types
+            c["int_operands"] = {"1": ["uint8", "bool", "int8", "int16", "int64", "uint16"][(c["n"] // 4) % 6]}
         sv = SPECIAL_V.get(c["op"])
         if sv:
             c["a"] = dict(c["a"], vclass=sv[c["n"] % len(sv)])
